@@ -1,5 +1,5 @@
 """Per-property configuration of ./check (what counts as a non-trivial case, extra machinery)."""
-from extras import mem_sweep, race_run
+from extras import mem_sweep, race_run, wrap_search
 
 
 def _triv_reject(op, res):
@@ -44,7 +44,7 @@ PROPS = {
             "trivial": lambda op, res: False},
     "C20": {"rule": "env.new on payloads from a JSON value grammar (quotes, backslashes, control and non-ASCII characters, <>&, nesting, numbers) incl. validity after marshal/unmarshal; env.valid over 3 mime types, every payload character altered, r+-1, s+-1, N-s twin, swapped key, 4 present/absent combinations x valid/malformed hex.",
             "trivial": lambda op, res: False},
-    "C09": {"rule": "field.* ops through build-tag hooks on word vectors at 0/1/prime-word/mask boundaries and magnitude limits, vs the Lean definitions regenerated from bec/field.go.",
+    "C09": {"extra": [wrap_search], "rule": "field.* ops through build-tag hooks on word vectors at 0/1/prime-word/mask boundaries and magnitude limits, vs the Lean definitions regenerated from bec/field.go.",
             "trivial": lambda op, res: False},
     "C10": {"rule": "field.normalise/setbytes/putbytes on vectors with value P-1, P, P+1, 2^256-1, carry into bit 256, words at 0/max/prime-word boundaries, vs the regenerated Lean definitions.",
             "trivial": lambda op, res: False},
